@@ -1,5 +1,6 @@
 import Foundation.Model.FullBatch
 import Foundation.Proofs.C04
+import Foundation.Lemmas.BalText
 /-!
 # The whole batch (`batchExecute` with the robot's lists) — shared by C04, C08, C09, C11
 
@@ -12,6 +13,10 @@ import Foundation.Proofs.C04
 * `refused_answer_invisible`, `refused_key_invisible` — the corollaries for the robot's items;
 * `accepted_answer_exact`, `accepted_key_exact` — an accepted single-asset answer / key changes
   exactly the record and the one counter (under the upper-case channel name) by exactly the amount;
+* `subAll_total`, `coming_home_answer_iff_covered` — an answer bringing a token home, with any asset
+  list, is accepted iff the given-out counter covers the **sum** of the list; then the counter is
+  the old value minus the sum (read back from its decimal text, `readBal_showBal`), the record is
+  stored, nothing else changes; refused: nothing changes;
 * `switched_off_lists_ignored` — with a switch off, the batch is the same program as the batch
   without the two lists of that kind (nothing of them is read, answered or written).
 -/
@@ -268,5 +273,152 @@ theorem accepted_key_exact (multi : Bool) (id key g : String) (n : Int) (r : Rec
     by_cases h1 : k = recKey multi id
     · simp [h1, W.read]
     · simp [h1]
+
+end Foundation.FullBatch
+
+namespace Foundation.FullBatch
+open Foundation.Cache Foundation.Batch
+
+def total (as : List (String × Int)) : Int := (as.map (·.2)).sum
+
+theorem t_tput (m : Spec) (k : Key) (v : Val) (k' : Key) :
+    (specStep m (.tput k v)).1.t k' = if k' = k then v else m.t k' := by
+  simp only [specStep, Spec.t, upd]
+  by_cases h : k' = k
+  · simp [h, W.read]
+  · simp [h]
+
+theorem total_nonneg (as : List (String × Int)) (h : ∀ a ∈ as, 0 ≤ a.2) : 0 ≤ total as := by
+  induction as with
+  | nil => simp [total]
+  | cons b r ih =>
+    have hb : 0 ≤ b.2 := h b (List.mem_cons_self ..)
+    have hr := ih (fun x hx => h x (List.mem_cons_of_mem _ hx))
+    simp [total] at hr ⊢; omega
+
+/-- `subAll_total`: debiting an asset list from one counter, asset by asset (amounts as they arrive:
+    non-negative; the counter non-negative). It succeeds exactly when the counter covers the *sum*;
+    then the counter reads the old value minus the sum and no other key of the transaction's view
+    changed. The committed map is never touched (the debits live in the transaction layer until the
+    item commits). -/
+theorem subAll_total (ch : String) (as : List (String × Int)) (hnn : ∀ a ∈ as, 0 ≤ a.2) : ∀ m : Spec,
+    0 ≤ readBal (m.t (givenKey ch)) →
+    ((runSpec m (subAll ch as)).2 = some () ↔ total as ≤ readBal (m.t (givenKey ch))) ∧
+    ((runSpec m (subAll ch as)).2 = some () →
+      readBal ((runSpec m (subAll ch as)).1.t (givenKey ch)) = readBal (m.t (givenKey ch)) - total as ∧
+      ∀ k, k ≠ givenKey ch → (runSpec m (subAll ch as)).1.t k = m.t k) ∧
+    (runSpec m (subAll ch as)).1.c = m.c := by
+  induction as with
+  | nil =>
+    intro m h0
+    simp only [subAll, runSpec, total, List.map_nil, List.sum_nil]
+    refine ⟨⟨fun _ => h0, fun _ => trivial⟩, fun _ => ⟨?_, fun _ _ => trivial⟩, trivial⟩
+    omega
+  | cons a rest ih =>
+    intro m h0
+    have ha : 0 ≤ a.2 := hnn a (List.mem_cons_self ..)
+    have hrest : ∀ x ∈ rest, 0 ≤ x.2 := fun x hx => hnn x (List.mem_cons_of_mem _ hx)
+    have htot : total (a :: rest) = a.2 + total rest := by simp [total]
+    have hnnr : 0 ≤ total rest := total_nonneg rest hrest
+    simp only [subAll, runSpec, specStep, Option.getD]
+    by_cases hlt : readBal (m.t (givenKey ch)) < a.2
+    · simp only [hlt, if_true, runSpec]
+      refine ⟨⟨?_, ?_⟩, ?_, trivial⟩
+      · intro h; cases h
+      · intro h; rw [htot] at h; omega
+      · intro h; cases h
+    · simp only [hlt, if_false, runSpec]
+      -- the state after the write of the reduced counter
+      let m1 := (specStep m (.tput (givenKey ch) (showBal (readBal (m.t (givenKey ch)) - a.2)))).1
+      have hm1 : m1.t (givenKey ch) = showBal (readBal (m.t (givenKey ch)) - a.2) := by
+        simp [m1, t_tput]
+      have hr1 : readBal (m1.t (givenKey ch)) = readBal (m.t (givenKey ch)) - a.2 := by
+        rw [hm1, readBal_showBal]
+      have hother : ∀ k, k ≠ givenKey ch → m1.t k = m.t k := by
+        intro k hk; simp [m1, t_tput, hk]
+      have hc1 : m1.c = m.c := rfl
+      obtain ⟨i1, i2, i3⟩ := ih hrest m1 (by rw [hr1]; omega)
+      refine ⟨?_, ?_, i3.trans hc1⟩
+      · rw [i1, hr1, htot]; constructor <;> intro h <;> omega
+      · intro hs
+        obtain ⟨j1, j2⟩ := i2 hs
+        refine ⟨by rw [j1, hr1, htot]; omega, fun k hk => by rw [j2 k hk, hother k hk]⟩
+
+/-- `coming_home_answer_iff_covered`: an answer to a swap or multi-swap whose token comes home, with
+    any asset list (non-negative amounts), on an empty transaction layer and a non-negative counter,
+    is accepted **iff the given-out counter of the source channel covers the sum of the whole list**;
+    when accepted, the counter reads the old value minus that sum, the record is stored with creator
+    `0000`, and every other key is as before; when refused, nothing at all changed. -/
+theorem coming_home_answer_iff_covered (multi : Bool) (id : String) (r : Rec) (m : Spec)
+    (ho : m.o = fun _ => none)
+    (hsrc : cmpToken multi r ≠ r.src) (hdst : cmpToken multi r = r.dst)
+    (hnn : ∀ a ∈ r.assets, 0 ≤ a.2) (h0 : 0 ≤ readBal (m.c (givenKey r.src)))
+    (hk : givenKey r.src ≠ recKey multi id) :
+    let res := runSpec m (answerProg multi (id, r))
+    ((∃ ws, res.2 = .ok ws) ↔ total r.assets ≤ readBal (m.c (givenKey r.src))) ∧
+    ((∃ ws, res.2 = .ok ws) →
+      res.1.c (recKey multi id) = enc { r with creator := "0000" } ∧
+      readBal (res.1.c (givenKey r.src)) = readBal (m.c (givenKey r.src)) - total r.assets ∧
+      ∀ k, k ≠ recKey multi id → k ≠ givenKey r.src → res.1.c k = m.c k) ∧
+    ((∀ ws, res.2 ≠ .ok ws) → res.1.c = m.c) := by
+  intro res
+  have ht : ∀ k, m.t k = m.c k := by intro k; simp [Spec.t, ho]
+  have h0' : 0 ≤ readBal (m.t (givenKey r.src)) := by rw [ht]; exact h0
+  obtain ⟨s1, s2, s3⟩ := subAll_total r.src r.assets hnn m h0'
+  have hres : res = runSpec m (answerProg multi (id, r)) := rfl
+  simp only [answerProg, item, answerCore, if_neg hsrc, if_pos hdst, runSpec_bind] at hres
+  cases hsub : (runSpec m (subAll r.src r.assets)).2 with
+  | none =>
+    -- refused: the list is not covered
+    have hnot : ¬ total r.assets ≤ readBal (m.c (givenKey r.src)) := by
+      intro hle; rw [← ht] at hle; have := s1.2 hle; rw [hsub] at this; cases this
+    rw [hsub] at hres
+    simp only [runSpec, finishItem, Spec.discard] at hres
+    refine ⟨⟨?_, fun h => absurd h hnot⟩, ?_, ?_⟩
+    · rintro ⟨ws, hws⟩; rw [hres] at hws; cases hws
+    · rintro ⟨ws, hws⟩; rw [hres] at hws; cases hws
+    · intro _; rw [hres]; exact s3
+  | some u =>
+    have hle : total r.assets ≤ readBal (m.c (givenKey r.src)) := by
+      rw [← ht]; exact s1.1 (by rw [hsub])
+    obtain ⟨j1, j2⟩ := s2 (by rw [hsub])
+    rw [hsub] at hres
+    simp only [runSpec, specStep, finishItem, Spec.commit] at hres
+    refine ⟨⟨fun _ => hle, fun _ => by rw [hres]; exact ⟨_, rfl⟩⟩, ?_, ?_⟩
+    · intro _
+      rw [hres]
+      refine ⟨?_, ?_, ?_⟩
+      · simp [Spec.t, upd, W.read]
+      · have : ({ c := (runSpec m (subAll r.src r.assets)).1.c,
+                  o := upd (runSpec m (subAll r.src r.assets)).1.o (recKey multi id) (some (W.put (enc { r with creator := "0000" }))),
+                  olog := recKey multi id :: (runSpec m (subAll r.src r.assets)).1.olog } : Spec).t (givenKey r.src)
+              = (runSpec m (subAll r.src r.assets)).1.t (givenKey r.src) := by
+          simp [Spec.t, upd, hk]
+        simp only [] at this ⊢
+        rw [this, j1, ht]
+      · intro k hk1 hk2
+        have : ({ c := (runSpec m (subAll r.src r.assets)).1.c,
+                  o := upd (runSpec m (subAll r.src r.assets)).1.o (recKey multi id) (some (W.put (enc { r with creator := "0000" }))),
+                  olog := recKey multi id :: (runSpec m (subAll r.src r.assets)).1.olog } : Spec).t k
+              = (runSpec m (subAll r.src r.assets)).1.t k := by
+          simp [Spec.t, upd, hk1]
+        simp only [] at this ⊢
+        rw [this, j2 k hk2, ht]
+    · intro hno; rw [hres] at hno; exact absurd rfl (hno _)
+
+/-- counters and records live under different keys (so the hypothesis `hk` of
+    `coming_home_answer_iff_covered` always holds) -/
+theorem givenKey_ne_recKey (ch : String) (multi : Bool) (id : String) : givenKey ch ≠ recKey multi id := by
+  intro h
+  have h2 := congrArg (fun s => s.toList.head?) h
+  cases multi <;> simp [givenKey, recKey, String.toList_append] at h2
+
+/-- the hypotheses of `coming_home_answer_iff_covered` are met by a concrete multi-swap answer on a
+    concrete map (token `VT` coming home from `CC`, two assets, counter 100) -/
+example : ∃ (r : Rec) (m : Spec), m.o = (fun _ => none) ∧ cmpToken true r ≠ r.src ∧ cmpToken true r = r.dst ∧
+    (∀ a ∈ r.assets, 0 ≤ a.2) ∧ 0 ≤ readBal (m.c (givenKey r.src)) :=
+  ⟨⟨"o", "VT", "CC", "VT", "h", "c", [("VT_g1", 30), ("VT_g2", 20)]⟩,
+   ⟨fun k => if k = givenKey "CC" then showBal 100 else "", fun _ => none, []⟩,
+   rfl, by decide, by decide, by decide, by simp [readBal_showBal]⟩
 
 end Foundation.FullBatch
